@@ -30,6 +30,8 @@ EXPECT = {
     "seed-C19-f": ["C19"],
     "seed-C01-g": ["C01"], "seed-C03-g": ["C03"], "seed-C04-g": ["C04"], "seed-C05-g": ["C05", "C13"], "seed-C07-g": ["C07"], "seed-C09-g": ["C09"],
     "seed-C10-g": ["C10"], "seed-C15-g": ["C15"], "seed-C16-g": ["C16", "C07"], "seed-C18-g": ["C18"],
+    "seed-C02-h": ["C02", "C03"], "seed-C06-h": ["C06"], "seed-C08-h": ["C08"], "seed-C11-h": ["C11"], "seed-C12-h": ["C12", "C03"], "seed-C13-h": ["C13"],
+    "seed-C14-h": ["C14"], "seed-C17-h": ["C17"], "seed-C19-h": ["C19"],
 }
 
 
